@@ -50,6 +50,13 @@ pub mod sync {
                 unsafe { extend(&v.0) }
             })
         }
+        pub fn get_or_try_init<E, F: FnOnce() -> Result<T, E>>(&self, f: F) -> Result<&T, E> {
+            if let Some(v) = self.get() {
+                return Ok(v);
+            }
+            let v = f()?;
+            Ok(self.get_or_init(|| v))
+        }
         pub fn set(&self, value: T) -> Result<(), T> {
             let mut v = Some(value);
             self.once.call_once(|| {
@@ -98,6 +105,45 @@ pub mod sync {
     impl<T, F> std::fmt::Debug for Lazy<T, F> {
         fn fmt(&self, f: &mut std::fmt::Formatter<'_>) -> std::fmt::Result {
             f.write_str("Lazy { .. }")
+        }
+    }
+}
+
+/// Single-threaded cells: the real thing (no scheduling involved).
+pub mod unsync {
+    pub struct OnceCell<T>(std::cell::OnceCell<T>);
+    impl<T> OnceCell<T> {
+        pub const fn new() -> Self {
+            OnceCell(std::cell::OnceCell::new())
+        }
+        pub fn get(&self) -> Option<&T> {
+            self.0.get()
+        }
+        pub fn get_or_init<F: FnOnce() -> T>(&self, f: F) -> &T {
+            self.0.get_or_init(f)
+        }
+        pub fn set(&self, v: T) -> Result<(), T> {
+            self.0.set(v)
+        }
+    }
+    impl<T> Default for OnceCell<T> {
+        fn default() -> Self {
+            Self::new()
+        }
+    }
+    pub struct Lazy<T, F = fn() -> T>(std::cell::LazyCell<T, F>);
+    impl<T, F: FnOnce() -> T> Lazy<T, F> {
+        pub const fn new(f: F) -> Self {
+            Lazy(std::cell::LazyCell::new(f))
+        }
+        pub fn force(this: &Self) -> &T {
+            std::cell::LazyCell::force(&this.0)
+        }
+    }
+    impl<T, F: FnOnce() -> T> std::ops::Deref for Lazy<T, F> {
+        type Target = T;
+        fn deref(&self) -> &T {
+            std::cell::LazyCell::force(&self.0)
         }
     }
 }
